@@ -151,8 +151,14 @@ class _STIXBase(collections.abc.Mapping):
                         ext_id, "2.1", "extensions",
                     )
                     if registered_ext_class:
+                        # A class registered under this name need not be a
+                        # toplevel-property extension, whatever the content
+                        # claims.
                         registered_toplevel_extension_props.update(
-                            registered_ext_class._toplevel_properties,
+                            getattr(
+                                registered_ext_class, "_toplevel_properties",
+                                None,
+                            ) or {},
                         )
                     else:
                         has_unregistered_toplevel_extension = True
